@@ -11,6 +11,22 @@ COMMON_NOTE = ("Trusted base: Coq 8.16.1 kernel + vm_compute (no native_compute,
                "modelled, not verified. ")
 
 CLAIMED = {
+ "C17": dict(
+  text="Axiom-free theorems about a hand model of RemapIndices.extract and merge_sites (coq/model/Remap.v). Remap: species are arbitrary ids compared by "
+       "equality; if every per-species assignment returned by the linear-sum-assignment oracle is a permutation of its group (contract checked on every "
+       "call), then for ANY composition the species groups partition the atoms and the re-ordered index list is a permutation of all atom indices "
+       "pairing every reference atom with a structure atom of the same species. Merge: a merge of any group of distinct valid indices, in any listing "
+       "order, keep_all on or off, conserves the total multiplicity; so does any sequence of merges (= number of original sites from unit "
+       "multiplicities); the result does not depend on the listing order; with keep_all off one site remains at the lowest index carrying "
+       "sum/first/element-wise-sum of the group, exactly the other members are removed and the sites before it are untouched. Tied to the code by "
+       "correspondence (recorded assignments -> model remap == RemapIndices output; merge sequences == model) and by oracles that state the property "
+       "directly: recovery of the hidden permutation of shuffled, lattice-shifted, perturbed copies over element families with prefix symbols, refusal above "
+       "tolerance / on different formulas, merged structure == documented strategies, listing-order independence, merge_tagged_sites.",
+  note="scipy linear_sum_assignment and ase get_distances are oracles (contract = hypothesis of remap_permutation). Within-tolerance and recovery of "
+       "the hidden permutation are judged numerically by the harness, not proved. Mean/concatenate strategies are outside the Coq model (python oracle). "
+       "Known finding C17-F17c (labels truncated to 25 characters). F-17a and F-17b were found by this check and repaired (fix: 23dee97, a3588cc).",
+  technique="Coq proof (lists/Permutation, no axioms) of a hand model with the assignment solver as a contract-checked oracle + differential correspondence + property oracles",
+  design="§8 C17"),
  "C18": dict(
   text="Axiom-free theorems about a transition-system model of Submitter._main_loop/_catch_signal/_terminate/_save/_load (coq/model/Submitter.v: one step "
        "per effect point, ghost event trace) over EVERY reachable state, i.e. any interleaving of loop steps, termination requests (at any point, any "
